@@ -18,6 +18,10 @@ pub(crate) mod verif_kani_store {
         &this.shards[SHARD]
     }
 
+    pub(crate) fn stub_shard_pub<'a>(this: &'a VersionClock, _key: &[u8]) -> &'a AtomicU64 {
+        &this.shards[SHARD]
+    }
+
     // wall clock = arbitrary u64 (A4): `now()` is the epoch and `as_nanos()` yields the symbolic instant,
     // so the u128 nanosecond arithmetic of std is not part of the proof
     pub(crate) fn stub_now() -> SystemTime {
